@@ -234,7 +234,7 @@ theorem C06_machine_none_due_after_call {s : State} (h : Reachable s) (label : N
     clock. -/
 theorem C06_machine_clock_discipline {s : State} (h : Reachable s) :
     s.outOfFuel = true ∨ (s.scaled = s.lastClock ∧ s.timer.mtime = s.lastClock ∧ s.lastClock ≤ s.clock) :=
-  (reachable_hinv h).map (fun hi => ⟨hi.ck2, hi.ck3, hi.ck1⟩)
+  (reachable_hinv h).map (fun hi => ⟨hi.ck2, reachable_mtime h, hi.ck1⟩)
 
 /-- No function of the machine moves `scaledTime`, the clock or `m_time` (only the host's `Execute`
     does): the three agree throughout a host call / a frame, whatever runs nested inside. -/
